@@ -928,6 +928,37 @@ pub fn run_c11(run: &mut Run) {
             1
         });
     }
+    // a processed request followed by a *response* of the same total length in which one free byte
+    // (destination or source EID) takes all 256 values with the PEC re-computed: exactly one value
+    // makes the PEC byte equal to the request's (CRC-8 is a bijection in any single byte), so every
+    // (length, PEC byte) coincidence between an answered request and a later non-request is met
+    {
+        let reqs: Vec<Vec<u8>> = vec![
+            forge_request(SRC, DST, 0, false, 0x01, &[0, 0x5A]),
+            forge_request(SRC, DST, 0, false, 0x04, &[0xFF]),
+            forge_request(SRC, DST, 0, false, 0x06, &[0]),
+            forge_request(SRC, DST, 3, false, 0x02, &[]),
+        ];
+        let cfg = Cfg::simple(DST);
+        run.sweep("answered request, then a same-length response / vendor message with a free byte over all 256 values (PEC-byte coincidences)", 4 * 3 * 2 * 256, |acc, i| {
+            let mut ix = Ix(i);
+            let v = ix.take(256) as u8;
+            let pos = [5usize, 6][ix.take(2) as usize];
+            let kind = ix.take(3);
+            let r = &reqs[ix.take(4) as usize];
+            let l = r.len();
+            let mut second = match kind {
+                0 if l >= 13 => forge_response(SRC, DST, 0, 0x05, 0, &vec![0u8; l - 13]),
+                1 if l >= 13 => forge_response(SRC, DST, 0, 0x06, 0, &vec![0u8; l - 13]),
+                _ => raw_frame(SRC, DST, T_PCI, &vec![0x11u8; l - 10]),
+            };
+            second[pos] = v;
+            fix_pec(&mut second);
+            let spec = CtxSpec { cfg: cfg.clone(), history: vec![Event::Process(r.clone())] };
+            let owned = Owned::new(&cfg);
+            c11_one(acc, &spec, &owned, &second, 2, i);
+        });
+    }
     // histories: every sequence of length <= 3 over the C13 alphabet and over the mixed-kind alphabet,
     // twin comparison at the last step
     let mixed = mixed_machine();
